@@ -1,0 +1,14 @@
+//go:build !verif
+
+package tally
+
+import "sync"
+
+// Verification hooks (build tag "verif"). With the tag off these are empty
+// and inlined away.
+
+func verifYield(site string) {}
+
+func verifLock(mu *sync.RWMutex, site string) {}
+
+func verifRLock(mu *sync.RWMutex, site string) {}
